@@ -106,6 +106,28 @@ class PBase:
         return "PBase(%s)" % self.name
 
 
+class SegBase(PBase):
+    """List prefix whose items are known: item i is the `width`-byte segment arr[start + width*i : start + width*(i+1)]
+    of a byte array, for 0 <= i < length (symbolic length).  Used by loop invariants that describe a list of sent
+    segments without quantifiers."""
+    __slots__ = ("arr", "start", "width")
+
+    def __init__(self, name, length, arr, start, width=7):
+        PBase.__init__(self, name, length)
+        self.arr = arr
+        self.start = start
+        self.width = width
+
+    def item(self, i):
+        return V.LBytes(self.arr, binop("+", self.start, binop("*", i, self.width)), self.width, False)
+
+    def drop(self, a):
+        return SegBase(self.name, binop("-", self.length, a), self.arr, binop("+", self.start, binop("*", a, self.width)), self.width)
+
+    def __repr__(self):
+        return "SegBase(%s)" % self.name
+
+
 class SList:
     """python list with identity (per path); items are engine values.  With `base` set the list is
     base ++ items where base is an arbitrary unknown list (history abstraction)."""
@@ -818,8 +840,51 @@ class Interp:
             return h
         raise Unsupported("iteration over %r" % (type(it).__name__,))
 
+    def for_with_invariant(self, node, fr, spec, itv):
+        """`for x in L` over a list of symbolic length, cut by an inductive invariant over the ghost index `$i`
+        (number of completed iterations): init, one symbolic iteration, exit with $i == len(L); variant len(L) - $i."""
+        ctx = self.ctx
+        tag = "%s#%d" % (fr.fd.qualname, self._loop_ordinal(node, fr))
+
+        def parts(v):
+            if isinstance(v, dict):
+                return [(":" + k, truth_val(c)) for k, c in v.items()]
+            return [("", truth_val(v))]
+        fr.locals["$i"] = 0
+        fr.locals["$iter"] = itv
+        for nm, c in parts(spec.inv(self, fr)):
+            ctx.side_obligations.append(("loop-init:" + tag + nm, c, list(ctx.pc)))
+        spec.havoc(self, fr)
+        itv = fr.locals["$iter"]
+        if not (isinstance(itv, SList) and isinstance(itv.base, SegBase) and not itv.items):
+            raise Unsupported("for-loop invariant needs a list described by a SegBase after havoc")
+        i = fr.locals["$i"]
+        ctx.assume(And(compare(">=", i, 0), compare("<=", i, itv.base.length)))
+        for nm, c in parts(spec.inv(self, fr)):
+            ctx.assume(c)
+        if truth(compare("<", i, itv.base.length)):
+            self.assign(node.target, itv.base.item(i), fr)
+            try:
+                self.exec_block(node.body, fr)
+            except ContinueEx:
+                pass
+            except BreakEx:
+                return
+            fr.locals["$i"] = binop("+", i, 1)
+            for nm, c in parts(spec.inv(self, fr)):
+                ctx.side_obligations.append(("loop-step:" + tag + nm, c, list(ctx.pc)))
+            ctx.notes.append("loop %s: one symbolic iteration checked against its invariant" % tag)
+            raise PathAbort()
+        fr.locals.pop("$i", None)
+        fr.locals.pop("$iter", None)
+        if node.orelse:
+            self.exec_block(node.orelse, fr)
+
     def s_For(self, node, fr):
         itv = self.eval(node.iter, fr)
+        spec = self.loop_specs.get((fr.fd.qualname, self._loop_ordinal(node, fr)))
+        if spec is not None and self.ctx.mode == "sym" and isinstance(itv, SList) and itv.base is not None:
+            return self.for_with_invariant(node, fr, spec, itv)
         if isinstance(itv, SList) and itv.base is not None:
             # summarised pattern: `for cb in L: cb(<loop-invariant args>)` over an unknown prefix:
             # every element of the prefix is called once, in order (assumption A5: callbacks do not re-enter)
@@ -1517,6 +1582,8 @@ class Interp:
             return byte_to_int(o.items[i])
         if isinstance(o, LBytes):
             return self.models.lbytes_getitem(self, o, k)
+        if isinstance(o, SList) and o.base is not None:
+            return self.getitem_based(o, k)
         if isinstance(o, (tuple, SList)):
             items = o.items if isinstance(o, SList) else o
             if isinstance(k, slice):
@@ -1550,6 +1617,35 @@ class Interp:
         if is_intlike(o):
             self.ctx.raise_builtin(TypeError, "'int' object is not subscriptable")
         raise Unsupported("subscript of %r" % (type(o).__name__,))
+
+    def getitem_based(self, o, k):
+        """subscript of base ++ items: supported for a base with known items (SegBase) and for indices counted from
+        the end that stay inside the appended items"""
+        base, items = o.base, o.items
+        if isinstance(k, slice):
+            if k.stop is not None or k.step is not None or not isinstance(base, SegBase):
+                raise Unsupported("slice of a list with unknown prefix")
+            a = 0 if k.start is None else k.start
+            if truth(compare("<", a, 0)):
+                raise Unsupported("negative slice start on a list with symbolic length")
+            if truth(compare("<=", a, base.length)):
+                return SList(items, base.drop(a))
+            r = self.ctx.choose(binop("-", a, base.length), range(0, len(items) + 1)) if len(items) else None
+            if r is None:
+                return SList([])
+            return SList(items[r:])
+        if isinstance(k, int) and not isinstance(k, bool) and k < 0 and -k <= len(items):
+            return items[k]
+        if not isinstance(base, SegBase):
+            raise Unsupported("index into a list with unknown prefix")
+        if truth(compare("<", k, 0)):
+            raise Unsupported("negative index on a list with symbolic length")
+        if truth(compare("<", k, base.length)):
+            return base.item(k)
+        for j in range(len(items)):
+            if truth(compare("==", k, binop("+", base.length, j))):
+                return items[j]
+        self.ctx.raise_builtin(IndexError, "list index out of range")
 
     def dict_get(self, o, k, default, raise_missing):
         if o.base is not None or (o.sym and is_intlike(k)):
